@@ -342,6 +342,7 @@ def _run(ctx):
         stream_api(ctx, pq, w, root, enums, structs, specs_names)
         stream_pickle(ctx, w, enums, structs, specs_names)
         stream_foreign(ctx, pq, w, root, enums, structs, specs_names)
+        stream_foreign_wide(ctx, pq, w, root, enums, structs, specs_names)
         stream_generic(ctx, pq, w)
         stream_dict_eq(ctx, pq, w)
         stream_boundary(ctx, pq, root, enums, structs)
@@ -602,6 +603,53 @@ def stream_foreign(ctx, pq, w, root, enums, structs, specs_names):
         if b1 != b0 or printed:
             ctx.fail({"component": "reserialise", "kind": "bytes-differ", "stream": "foreign", "root": tr[1]}, case,
                      "to_bytes(from_buffer(b)) != b for spec-encoded b (%d vs %d bytes) %s" % (len(b1), len(b0), printed))
+
+
+def stream_foreign_wide(ctx, pq, w, root, enums, structs, specs_names):
+    """everything the IDL allows below the roots (i8/i16 fields, field id 14, empty lists, crypto structs), encoded by the
+    specification writer: the reader model on type nibbles 3/4 and on ids up to 14; re-serialisation must be byte-identical
+    unless the tree touches one of the known-finding regions (classified per tree)"""
+    rng = ctx.rng
+    n = 200 if ctx.quick() else 2000
+    g = Gen(rng, enums, structs, specs_names, "wide")
+    trees = []
+    while len(trees) < n:
+        g.budget = 0
+        tr = g.struct(ROOTS[len(trees) % len(ROOTS)], 0, rng.choice([(0, 1, 2), (1, 2, 3), (0, 15)]))
+        if has(tr, lambda t: t[0] == "list" and t[1] in ("FBool",)):
+            continue                                   # read_list reads list<bool> as structs: outside the model (ColumnIndex only)
+        trees.append(tr)
+    encs = pq.batch([("thrift_enc", to_tv(tr)) for tr in trees])
+    keep = [(tr, bytes(e[1])) for tr, e in zip(trees, encs) if sym(e[0]) == "ok" and len(bytes(e[1])) <= cap_lo(tr) - 1000]
+    outs = pq.batch([("c_from_buffer", b0) for tr, b0 in keep])
+    for (tr, b0), m_r in zip(keep, outs):
+        case = {"stream": "foreign-wide", "root": tr[1], "tree": tree_json(tr)}
+        ctx.case(case, trivial=(not tr[2]))
+        r = w.call("reserialise", (tr[1], b0))
+        regions = []
+        if has(tr, lambda t: t[0] in ("i8", "i16")):
+            regions.append("i8-i16-as-i32-i64")
+        if has(tr, lambda t: t[0] == "struct" and any(f[0] >= 14 for f in t[2])):
+            regions.append("field14")
+        if has(tr, lambda t: t[0] == "list" and not t[2]):
+            regions.append("empty-list-element-type")
+        if has(tr, lambda t: t[0] == "list" and t[1] in ("FI64", "FBinary") and t[2]):
+            regions.append("list-i64-or-binary")
+        ctx.count("foreign_wide.region", "+".join(regions) or "none")
+        if r[0] != "ok":
+            ctx.correspondence("from_buffer(spec-encoded, whole IDL) ~ impl model c_from_buffer", case, "ok", list(r[:3]))
+            continue
+        y, pos, printed, b1 = r[1]
+        ctx.correspondence("from_buffer(spec-encoded, whole IDL) ~ impl model c_from_buffer", case, T.canon(m_r),
+                           ["ok", T.canon(T.pv(y)), len(b0) - pos])
+        if b1 != b0 or printed:
+            if regions:
+                comp = "write_list" if regions[0] == "empty-list-element-type" else "write_thrift"
+                ctx.fail({"component": comp, "kind": regions[0], "stream": "foreign-wide", "regions": regions}, case,
+                         "re-serialisation changes the bytes (%d -> %d)" % (len(b0), len(b1)))
+            else:
+                ctx.fail({"component": "reserialise", "kind": "bytes-differ", "stream": "foreign-wide", "root": tr[1]}, case,
+                         "to_bytes(from_buffer(b)) != b for spec-encoded b (%d vs %d bytes) %s" % (len(b1), len(b0), printed))
 
 
 # ---- stream 3: untyped objects (the model as a function, exceptions included) --------------------------
